@@ -258,6 +258,43 @@ def c19_adapt_cplx(ctx, case):
     _adapt_body(ctx, case)
 
 
+# ---- the iteration at its pass budget: a line far above a weak floor on a fine grid ------------------------------------------
+def enum_cap(tier):
+    for cplx, N, NW, k, nfft in ((False, 512, 3.5, 7, 32768), (True, 512, 3.5, 7, 32768), (True, 256, 3.5, 7, 32768), (True, 128, 2.5, 5, 32768),
+                                 (False, 512, 3.5, 7, 16384)):
+        yield {"complex": cplx, "N": N, "NW": NW, "k": k, "nfft": nfft, "noise": 0.01}
+
+
+@sub("C19.cap", enum=enum_cap, exhaustive=True, shards_quick=4, shards_thorough=4,
+     doc="a unit line over a floor of 0.01 on grids of 16384 / 32768 points: the stopping rule (mean change <= 0.0005 sigma^2/NFFT) "
+         "is then not met within the 100 passes the iteration allows itself; the weights returned must still be Thomson's formula "
+         "at the estimate they produce, to 0.1 (observed 0.002..0.023 at the last pass; weights that were never adapted give 0.99)")
+def c19_cap(ctx, case):
+    N, NW, k, nfft = case["N"], case["NW"], case["k"], case["nfft"]
+    rng = np.random.default_rng(3)
+    n = np.arange(N)
+    if case["complex"]:
+        x = np.exp(2j * np.pi * 0.2 * n) + case["noise"] * (rng.standard_normal(N) + 1j * rng.standard_normal(N))
+    else:
+        x = np.cos(2 * np.pi * 0.2 * n) + case["noise"] * rng.standard_normal(N)
+    ctx.cls("complex" if case["complex"] else "real", "N=%d" % N, "NFFT=%d" % nfft)
+    ctx.nontrivial(True)
+    tapers, lam = spectrum.dpss(N, NW, k)
+    lam = np.asarray(lam, dtype=float)
+    sig2 = float(np.vdot(x, x).real) / N
+    _Sk, w, _ev = spectrum.pmtm(x, NW=NW, k=k, NFFT=nfft, method="adapt")
+    w = np.asarray(w)
+    ctx.check(w.shape == (nfft, k) and np.all(np.isfinite(w)), "adaptive weights have shape %s / are not finite" % (w.shape,))
+    ctx.check(float(np.max(np.abs(np.imag(w)))) <= 1e-12, "adaptive weights are not real", sig={"clause": "real"})
+    w = np.real(w)
+    S2 = (np.abs(np.fft.fft(np.asarray(tapers).T * x, nfft)) ** 2).T          # (NFFT, k), independent of pmtm
+    S = (np.sum(w * S2, axis=1) / np.sum(w, axis=1)).reshape(nfft, 1)
+    b = S / (S * lam[None, :] + sig2 * (1.0 - lam[None, :]))
+    resid = float(np.max(np.abs(w - b ** 2 * lam[None, :])))
+    ctx.check(resid <= 0.1, "adaptive weights at the pass budget are not Thomson's formula at the estimate they produce: max|w - formula(S)| = %.3g "
+              "(N=%d NW=%r k=%d NFFT=%d)" % (resid, N, NW, k, nfft), sig={"clause": "thomson_at_budget"})
+
+
 def _class_body(ctx, case):
     x = gen.realise(case["x"])
     N, NW, k = len(x), case["NW"], _keff(case["k"], case["NW"])
